@@ -126,54 +126,90 @@ Definition no_listener := {| l_tcp := false; l_udp := false; l_quic := false |}.
 Definition lunion (a b : listeners) :=
   {| l_tcp := l_tcp a || l_tcp b; l_udp := l_udp a || l_udp b; l_quic := l_quic a || l_quic b |}.
 
-(* server.rs: startup_tcp binds a TcpListener unconditionally; startup_quic is `if let Some(..) = &config.quic` *)
-Definition server_fn (fn : string) (has_quic : bool) : listeners :=
-  if (fn =? "startup_tcp") then {| l_tcp := true; l_udp := false; l_quic := false |}
+(* one startup function: it serves forever on its listener(s), or returns Ok(()), or returns an error *)
+Inductive outcome := Serves (l : listeners) | ReturnsOk | ReturnsErr (msg : string).
+Definition serves_if (b : bool) (l : listeners) : outcome := if b then Serves l else ReturnsOk.
+
+(* server.rs: startup_tcp binds a TcpListener unconditionally; startup_quic is `if let Some(..) = &config.quic {serve} Ok(())` *)
+Definition server_fn (fn : string) (has_quic : bool) : outcome :=
+  if (fn =? "startup_tcp") then Serves {| l_tcp := true; l_udp := false; l_quic := false |}
   else if (fn =? "startup_quic") then
-    {| l_tcp := false; l_udp := false; l_quic := if ConfigTables.server_quic_needs_section then has_quic else true |}
-  else if (fn =? "UdpSocket") then {| l_tcp := false; l_udp := true; l_quic := false |}
-  else no_listener.
+    serves_if (if ConfigTables.server_quic_needs_section then has_quic else true) {| l_tcp := false; l_udp := false; l_quic := true |}
+  else if (fn =? "UdpSocket") then Serves {| l_tcp := false; l_udp := true; l_quic := false |}
+  else ReturnsOk.
 
 (* server/shadowsocks.rs startup_tcp: `if !mode.enable_tcp() { return Ok(()) }` then super::startup_tcp *)
-Definition ss_startup_tcp (m : lmode) (has_quic : bool) : listeners :=
-  if any_pred ConfigTables.ss_server_tcp_guard m then server_fn "startup_tcp" has_quic else no_listener.
-(* server/shadowsocks.rs startup_udp: `if !enable_udp && !enable_quic { return }  if enable_udp { UdpSocket::bind } else { startup_quic }` *)
-Definition ss_startup_udp (m : lmode) (has_quic : bool) : listeners :=
+Definition ss_startup_tcp (m : lmode) (has_quic : bool) : outcome :=
+  if any_pred ConfigTables.ss_server_tcp_guard m then server_fn "startup_tcp" has_quic else ReturnsOk.
+(* server/shadowsocks.rs startup_udp: `if !enable_udp && !enable_quic { return Ok }  if enable_udp { UdpSocket::bind .. }
+   else { if config.quic.is_none() { bail!(..) }  startup_quic }` *)
+Definition quic_section_msg : string := "mode requires a quic section".
+Definition ss_startup_udp (m : lmode) (has_quic : bool) : outcome :=
   if any_pred ConfigTables.ss_server_udp_guard m then
     let '(p, a, b) := ConfigTables.ss_server_udp_branch in
-    if mode_pred p m then server_fn a has_quic else server_fn b has_quic
-  else no_listener.
-Definition ss_fn (fn : string) (m : lmode) (has_quic : bool) : listeners :=
+    if mode_pred p m then server_fn a has_quic
+    else if ConfigTables.ss_server_quic_branch_requires_section && negb has_quic then ReturnsErr quic_section_msg
+    else server_fn b has_quic
+  else ReturnsOk.
+Definition ss_fn (fn : string) (m : lmode) (has_quic : bool) : outcome :=
   if fn =? "startup_tcp" then ss_startup_tcp m has_quic
-  else if fn =? "startup_udp" then ss_startup_udp m has_quic else no_listener.
+  else if fn =? "startup_udp" then ss_startup_udp m has_quic else ReturnsOk.
+
+(* `tokio::join!(a, b)` followed by a match on the results: the errors are looked at only once EVERY joined
+   function has returned; while one of them serves, the join never completes and an error another one returned
+   is never reported *)
+Inductive startup :=
+| Started (l : listeners)                                   (* serving on l (l empty: everything returned Ok) *)
+| StartupError (msg : string)                               (* startup stops with an error, nothing is served *)
+| StartedDespiteError (l : listeners) (msg : string).       (* serving on l; a joined function's error is never reported *)
+Definition served (os : list outcome) : listeners :=
+  fold_right (fun o acc => match o with Serves l => lunion l acc | _ => acc end) no_listener os.
+Definition first_error (os : list outcome) : option string :=
+  fold_right (fun o acc => match o with ReturnsErr e => Some e | _ => acc end) None os.
+Definition any_serves (os : list outcome) : bool := existsb (fun o => match o with Serves _ => true | _ => false end) os.
+Definition join (os : list outcome) : startup :=
+  match first_error os with
+  | None => Started (served os)
+  | Some e => if any_serves os then StartedDespiteError (served os) e else StartupError e
+  end.
 
 (* server.rs startup: per protocol, the joined startup functions *)
-Definition listeners_server (p : protocol) (m : lmode) (has_ssl has_ws has_quic : bool) : listeners :=
+Definition server_outcomes (p : protocol) (m : lmode) (has_quic : bool) : list outcome :=
   match assoc (protocol_variant p) ConfigTables.server_startup with
-  | None => no_listener
+  | None => []
   | Some fns =>
-    fold_right (fun fn acc =>
-      lunion (if fn =? "shadowsocks::startup"
-              then fold_right (fun g acc' => lunion (ss_fn g m has_quic) acc') no_listener ConfigTables.ss_server_joined
-              else server_fn fn has_quic) acc) no_listener fns
+    flat_map (fun fn => if fn =? "shadowsocks::startup"
+                        then map (fun g => ss_fn g m has_quic) ConfigTables.ss_server_joined
+                        else [server_fn fn has_quic]) fns
   end.
+(* the sockets that end up listening *)
+Definition listeners_server (p : protocol) (m : lmode) (has_ssl has_ws has_quic : bool) : listeners :=
+  served (server_outcomes p m has_quic).
 
 (* what the shadowsocks server does before any listener: `CipherKind::Unknown => bail!(..)`; the other
    protocols never look at `cipher` on the server *)
-Inductive startup := Started (l : listeners) | StartupError (msg : string).
+(* ... and, first of all, `if mode.enable_quic() && config.quic.is_none() { bail!(..) }` *)
 Definition startup_server (p : protocol) (c : cipher) (m : lmode) (has_ssl has_ws has_quic : bool) : startup :=
-  match p, server_n c with
-  | PShadowsocks, None => StartupError (snd ConfigTables.ss_server_unknown)
-  | _, _ => Started (listeners_server p m has_ssl has_ws has_quic)
+  match p with
+  | PShadowsocks =>
+    if any_pred ConfigTables.ss_server_requires_quic_section m && negb has_quic then StartupError quic_section_msg
+    else match server_n c with
+         | None => StartupError (snd ConfigTables.ss_server_unknown)
+         | Some _ => join (server_outcomes p m has_quic)
+         end
+  | _ => join (server_outcomes p m has_quic)
   end.
 
 (* client main: `if mode.enable_udp() { UdpSocket::bind }`, `if mode.enable_tcp() { TcpListener::bind }` *)
 Definition listeners_client (m : lmode) : bool * bool :=
   let on (sock : string) := match assoc sock ConfigTables.client_main_guards with Some g => mode_pred g m | None => false end in
   (on "TcpListener", on "UdpSocket").
+(* ... after `if mode.enable_quic() { bail!(..) }`: a server-only mode is refused before anything is bound *)
+Definition server_mode_msg : string := "mode is a server mode".
+Definition client_mode_refused (m : lmode) : bool := any_pred ConfigTables.client_main_refuses m.
 (* the process stays up exactly while a listener's task runs (main awaits the UDP task after the TCP loop) *)
 Definition client_keeps_running (m : lmode) : bool :=
-  let '(t, u) := listeners_client m in t || (u && ConfigTables.client_main_awaits_udp_task).
+  let '(t, u) := listeners_client m in negb (client_mode_refused m) && (t || (u && ConfigTables.client_main_awaits_udp_task)).
 
 (* ------------------------------------------------------------------------------------------ *)
 (* client transports *)
@@ -229,12 +265,15 @@ Definition transport_server_tcp (has_ssl has_ws : bool) : option transport :=
   | None => None
   end.
 
-(* vmess client: `if cipher == CipherKind::X { SecurityType::A } else { SecurityType::B }` (tcp and udp) *)
-Definition vmess_client_security (net : string) (c : cipher) : option string :=
-  match find (fun r => fst (fst (fst r)) =? net) ConfigTables.vmess_client_security with
-  | Some (_, k, a, b) => Some (if cipher_variant c =? k then a else b)
-  | None => None
-  end.
+(* vmess client: `security_type(kind)`: `CipherKind::X => Ok(SecurityType::Y)` .. `_ => bail!(..)`.  None = refused.
+   `net` = "tcp" | "udp" (the per-flow codec constructors) | "context" (the client context of transfer_tcp, built once
+   at startup): each consults security_type only if the generator found the call *)
+Definition vmess_security (c : cipher) : option string := assoc (cipher_variant c) ConfigTables.vmess_security_arms.
+Inductive vmess_choice := VSecurity (s : string) | VRefused | VUnchecked.
+Definition vmess_client_security (net : string) (c : cipher) : vmess_choice :=
+  if mem net ConfigTables.vmess_security_callers then
+    match vmess_security c with Some s => VSecurity s | None => VRefused end
+  else VUnchecked.
 
 (* ------------------------------------------------------------------------------------------ *)
 (* keys *)
@@ -387,6 +426,8 @@ Definition q_kdf (P : prims) (n : N) (pw : bytes) : res bytes := openssl_bytes_t
 Definition q_b64 (s : bytes) : option bytes := b64_decode (string_of_bytes s).
 Definition q_keys (n : N) (pw : bytes) : option (bytes * list bytes) := config_password_to_keys b64_decode n (string_of_bytes pw).
 Definition q_user (n : N) (pw : bytes) : option bytes := user_key b64_decode n (string_of_bytes pw).
+Definition q_vmess (net variant : bytes) : option vmess_choice :=
+  option_map (vmess_client_security (string_of_bytes net)) (assoc (string_of_bytes variant) cipher_variants).
 (* key derivation of one path of one kind: side/net as names, N by the path's own dispatch *)
 Definition q_path (P : prims) (sd nt variant pw : bytes) : option (option N * key_result) :=
   match assoc (string_of_bytes variant) cipher_variants with
@@ -398,12 +439,26 @@ Definition q_path (P : prims) (sd nt variant pw : bytes) : option (option N * ke
     Some (n, match n with Some n => derive_key P b64_decode c nt' sd' n (string_of_bytes pw) | None => NoKey end)
   end.
 
-(* client startup as far as `cipher` is concerned (client.rs transfer_tcp / transfer_udp): a Shadowsocks client
-   whose kind has no key-size arm logs `error!(..)` and serves nothing on that socket; VMess / Trojan never
-   reach a `match cipher` *)
+(* client startup (client.rs main / transfer_tcp / transfer_udp): a server-only mode is refused first; a Shadowsocks
+   client whose kind has no key-size arm logs `error!(..)` and serves nothing on that socket; a VMess client builds its
+   context with security_type(cipher) when the TCP listener starts (an unsupported cipher: "create client context
+   failed", no TCP service) and per flow on UDP (see vmess_client_security "udp"); Trojan never looks at `cipher` *)
+Definition vmess_cipher_msg : string := "cipher is not supported by vmess".
 Definition startup_client (p : protocol) (c : cipher) (m : lmode) : startup :=
-  match p, client_tcp_n c, client_udp_n c with
-  | PShadowsocks, None, _ => StartupError (snd ConfigTables.client_tcp_unknown)
-  | PShadowsocks, _, None => StartupError (snd ConfigTables.client_udp_unknown)
-  | _, _, _ => let '(t, u) := listeners_client m in Started {| l_tcp := t; l_udp := u; l_quic := false |}
+  if client_mode_refused m then StartupError server_mode_msg else
+  let '(t, u) := listeners_client m in
+  let started := Started {| l_tcp := t; l_udp := u; l_quic := false |} in
+  match p with
+  | PShadowsocks =>
+    match client_tcp_n c, client_udp_n c with
+    | None, _ => StartupError (snd ConfigTables.client_tcp_unknown)
+    | _, None => StartupError (snd ConfigTables.client_udp_unknown)
+    | _, _ => started
+    end
+  | PVMess =>
+    match vmess_client_security "context" c with
+    | VRefused => if t then StartupError vmess_cipher_msg else started
+    | _ => started
+    end
+  | PTrojan => started
   end.
